@@ -193,15 +193,26 @@ func (s *cacheSUT) apply(o kop, viol violFn) {
 		prev, existed := s.cm.m[o.Key]
 		var evicted *kademlia.Entry[uint64]
 		var added bool
+		// the caller owns its key buffers again as soon as the call returns: they are overwritten at once
+		kbuf, kbuf2 := append([]byte{}, key...), append([]byte{}, key...)
+		scribble := func() {
+			for i := range kbuf {
+				kbuf[i] ^= 0xA5
+				kbuf2[i] ^= 0x5A
+			}
+		}
 		if o.Kind == "put" {
-			evicted, added = s.c.Put(append([]byte{}, key...), val, now, exp)
+			evicted, added = s.c.Put(kbuf, val, now, exp)
+			scribble()
 		} else {
 			var sawExists bool
 			var saw kademlia.Entry[uint64]
-			evicted, added = s.c.Update(append([]byte{}, key...), func(e kademlia.Entry[uint64], exists bool) kademlia.Entry[uint64] {
+			evicted, added = s.c.Update(kbuf, func(e kademlia.Entry[uint64], exists bool) kademlia.Entry[uint64] {
 				sawExists, saw = exists, e
-				return kademlia.Entry[uint64]{Key: append([]byte{}, key...), Value: val, CreatedAt: now, ExpiresAt: exp}
+				saw.Key = append([]byte{}, e.Key...)
+				return kademlia.Entry[uint64]{Key: kbuf2, Value: val, CreatedAt: now, ExpiresAt: exp}
 			})
+			scribble()
 			if s.cm.max > 0 {
 				if sawExists != existed {
 					fail("C18/update-exists-flag", fmt.Sprintf("Update's callback saw exists=%v but the key was present=%v", sawExists, existed), nil)
